@@ -21,7 +21,9 @@ package main
 
 import (
 	"fmt"
+	"os"
 	"strings"
+	"time"
 
 	"github.com/esimov/gogu/bstree"
 	"github.com/esimov/gogu/cache"
@@ -279,14 +281,27 @@ func c02Types() []c02Type {
 					return c02VErr(0, ek(c.Delete(key)))
 				case 4:
 					return c02Val(c.Count())
+				case 5:
+					return c02VErr(0, ek(c.DeleteExpired()))
+				case 6:
+					return c02Bool(c.IsExpired(key))
+				case 7:
+					c.Flush()
+					return c02Unit
+				case 8: // set-up only: an entry that expires one nanosecond later
+					return c02VErr(0, ek(c.Set(key, o[2], time.Nanosecond)))
+				case 9: // set-up only: let that nanosecond (and much more) pass
+					time.Sleep(time.Millisecond)
+					return c02Unit
 				}
 				return c02BadOp
 			},
-			ops:   []c02Op{{0, 1, 10}, {0, 1, 11}, {2, 1, 12}, {1, 1, 0}, {3, 1, 0}, {4, 0, 0}},
-			inits: [][]c02Op{{}, {{0, 1, 9}, {0, 2, 8}}},
-			tail:  []c02Op{{4, 0, 0}, {1, 1, 0}, {1, 2, 0}},
+			ops:   []c02Op{{0, 1, 10}, {0, 1, 11}, {2, 1, 12}, {1, 1, 0}, {3, 1, 0}, {4, 0, 0}, {5, 0, 0}},
+			inits: [][]c02Op{{}, {{0, 1, 9}, {0, 2, 8}}, {{8, 1, 5}, {0, 2, 8}, {9, 0, 0}}},
+			tail:  []c02Op{{4, 0, 0}, {1, 1, 0}, {1, 2, 0}, {6, 1, 0}},
 			names: func(o c02Op) string {
-				return []string{fmt.Sprintf("Set(k%d,%d)", o[1], o[2]), fmt.Sprintf("Get(k%d)", o[1]), fmt.Sprintf("Update(k%d,%d)", o[1], o[2]), fmt.Sprintf("Delete(k%d)", o[1]), "Count()"}[o[0]%5]
+				return []string{fmt.Sprintf("Set(k%d,%d)", o[1], o[2]), fmt.Sprintf("Get(k%d)", o[1]), fmt.Sprintf("Update(k%d,%d)", o[1], o[2]), fmt.Sprintf("Delete(k%d)", o[1]), "Count()",
+					"DeleteExpired()", fmt.Sprintf("IsExpired(k%d)", o[1]), "Flush()", fmt.Sprintf("Set(k%d,%d,1ns)", o[1], o[2]), "sleep(1ms)"}[o[0]%10]
 			}},
 	}
 }
@@ -494,7 +509,11 @@ func c02Explore(g *Gen, stream string, c *c02Case, max int) bool {
 func c02Gen(g *Gen) {
 	types := c02Types()
 	complete := map[string]bool{"pairs": true, "triples": true, "two_by_two": true}
+	only := os.Getenv("C02_TYPES") // e.g. "7": restrict to some machines (used as a stage of other checks)
 	for ty := range types {
+		if only != "" && !strings.Contains(","+only+",", fmt.Sprintf(",%d,", ty)) {
+			continue
+		}
 		t := &types[ty]
 		p := 7
 		for _, ini := range t.inits {
